@@ -20,7 +20,11 @@ func RenameMethodApp(deps []core_domain.CodeDataStruct) *RemoveMethodApp {
 	return &RemoveMethodApp{}
 }
 
+// columns already shifted by earlier renames on the same line: path -> line -> original column -> delta
+var lineShifts map[string]map[int]map[int]int
+
 func (j *RemoveMethodApp) Refactoring(conf string) {
+	lineShifts = make(map[string]map[int]map[int]int)
 	parsedChange = support.ParseRelates(conf)
 	startParse(parsedDeps, parsedChange)
 }
@@ -79,7 +83,24 @@ func updateSelfRefs(node core_domain.CodeDataStruct, method core_domain.CodeFunc
 		if i == method.Position.StartLine-1 {
 			// positions are rune columns (ANTLR), not byte offsets
 			runes := []rune(line)
-			newLine := string(runes[:method.Position.StartLinePosition]) + info.Method + string(runes[method.Position.StopLinePosition:])
+			start, stop := method.Position.StartLinePosition, method.Position.StopLinePosition
+			if lineShifts[path] == nil {
+				lineShifts[path] = make(map[int]map[int]int)
+			}
+			if lineShifts[path][i] == nil {
+				lineShifts[path][i] = make(map[int]int)
+			}
+			if _, done := lineShifts[path][i][start]; done {
+				continue
+			}
+			shift := 0
+			for column, delta := range lineShifts[path][i] {
+				if column < start {
+					shift += delta
+				}
+			}
+			lineShifts[path][i][start] = len([]rune(info.Method)) - (stop - start)
+			newLine := string(runes[:start+shift]) + info.Method + string(runes[stop+shift:])
 			lines[i] = newLine
 		}
 	}
